@@ -64,6 +64,11 @@ def Runs (cfg : Cfg) (own : Owner) (beh : Behaviour) (fuel : Nat) (ops : List Op
 
 def ValidOps (ops : List Op) : Prop := ∀ op ∈ ops, OpOk op
 
+instance : DecidablePred OpOk := fun op => by
+  cases op <;> simp only [OpOk] <;> infer_instance
+
+instance (ops : List Op) : Decidable (ValidOps ops) := by unfold ValidOps; infer_instance
+
 /-! ### no_ub -/
 
 /-- No history dereferences a freed binding, writes through a stale `bindp` or calls a NULL handler. -/
@@ -218,5 +223,152 @@ theorem no_tombstone_between_operations (own : Owner) (beh : Behaviour) (hb : No
   have := execOps_good own beh hb fuel ops St.init hops Top.init
   rw [hr] at this
   exact ⟨(this.2 hnd).2, (this.2 hnd).no_tombstones⟩
+
+
+/-! ### the unchanged code violates the clauses: counterexample theorems
+
+Each history below is the minimal replay stored under `corpus/C16/`; the real library reproduces every one of
+them through the harness (see `known/C16.json`). -/
+
+def logOf : Res St → List Ev
+  | .ok st => st.log
+  | _ => []
+
+def isOk : Res St → Bool
+  | .ok _ => true
+  | _ => false
+
+def isUb : Res St → Bool
+  | .ub _ => true
+  | _ => false
+
+theorem runs_of_isOk {cfg : Cfg} {own : Owner} {beh : Behaviour} {fuel : Nat} {ops : List Op}
+    (h : isOk (execOps cfg own beh fuel ops St.init) = true) :
+    ∃ st, Runs cfg own beh fuel ops st ∧ st.log = logOf (execOps cfg own beh fuel ops St.init) := by
+  unfold Runs
+  cases hc : execOps cfg own beh fuel ops St.init with
+  | ok st => exact ⟨st, rfl, rfl⟩
+  | ub w => rw [hc] at h; cases h
+  | outOfFuel => rw [hc] at h; cases h
+
+def plain : BFlags := ⟨false, false, false⟩
+def oneshot : BFlags := ⟨false, false, true⟩
+def wantsUnbind : BFlags := ⟨true, false, false⟩
+
+/-- handler 0 emits event 1 again at its first invocation -/
+def behReemit : Behaviour := fun h n => if h = 0 ∧ n = 0 then ⟨[.emit 1], 0⟩ else ⟨[], 0⟩
+/-- handler 0 unbinds its own binding at its first two invocations -/
+def behSelfTwice : Behaviour := fun h n => if h = 0 ∧ n ≤ 1 then ⟨[.unbindSelf], 0⟩ else ⟨[], 0⟩
+/-- handler 0 binds handler 1 `FIRST` at its first invocation -/
+def behBindFirst : Behaviour := fun h n => if h = 0 ∧ n = 0 then ⟨[.bind 1 true plain 1], 0⟩ else ⟨[], 0⟩
+def behNone : Behaviour := fun _ _ => ⟨[], 0⟩
+
+theorem noDestroy_behReemit : NoDestroy behReemit := by intro h n; unfold behReemit; split <;> simp
+theorem noDestroy_behSelfTwice : NoDestroy behSelfTwice := by intro h n; unfold behSelfTwice; split <;> simp
+theorem noDestroy_behBindFirst : NoDestroy behBindFirst := by intro h n; unfold behBindFirst; split <;> simp
+theorem noDestroy_behNone : NoDestroy behNone := by intro h n; simp [behNone]
+
+/-- `corpus/C16/oneshot_reentrant.ops`: handler 0 re-emits; the one-shot binding after it runs in the nested
+    occurrence and again when the outer walker reaches its tombstone (which kept `evindex`). -/
+theorem oneshot_counterexample : ¬ OneshotStmt Cfg.original := by
+  intro h
+  obtain ⟨st, hr, hlog⟩ := runs_of_isOk (cfg := Cfg.original) (own := Owner.pen) (beh := behReemit) (fuel := 30)
+    (ops := [.bind 1 false plain 0, .bind 1 false oneshot 1, .emit 1]) (by decide)
+  have := h Owner.pen behReemit noDestroy_behReemit 30 _ st (by decide) hr 1 oneshot
+    (by rw [hlog]; exact ⟨2, 1, false, by decide⟩) rfl
+  rw [hlog] at this
+  revert this; decide
+
+/-- `corpus/C16/whilefalse_oneshot.ops`: a one-shot key handler of a terminal (`run_event_whilefalse`) runs for
+    every key event. -/
+theorem oneshot_whilefalse_counterexample : ¬ OneshotStmt Cfg.original := by
+  intro h
+  obtain ⟨st, hr, hlog⟩ := runs_of_isOk (cfg := Cfg.original) (own := Owner.term) (beh := behNone) (fuel := 30)
+    (ops := [.bind 2 false oneshot 0, .emit 2, .emit 2]) (by decide)
+  have := h Owner.term behNone noDestroy_behNone 30 _ st (by decide) hr 0 oneshot
+    (by rw [hlog]; exact ⟨1, 2, false, by decide⟩) rfl
+  rw [hlog] at this
+  revert this; decide
+
+/-- `corpus/C16/unbind_reentrant_uaf.ops`: the unbind notification unbinds its own binding again; the outer
+    `unbind_event_id` then writes to and frees a freed node. -/
+theorem no_ub_counterexample : ¬ NoUbStmt Cfg.original := by
+  intro h
+  have hub : isUb (execOps Cfg.original Owner.pen behSelfTwice 30 [.bind 1 false wantsUnbind 0, .unbind 0] St.init) = true := by
+    decide
+  cases hc : execOps Cfg.original Owner.pen behSelfTwice 30 [.bind 1 false wantsUnbind 0, .unbind 0] St.init with
+  | ub w => exact h Owner.pen behSelfTwice noDestroy_behSelfTwice 30 _ (by decide) w hc
+  | ok st => rw [hc] at hub; cases hub
+  | outOfFuel => rw [hc] at hub; cases hub
+
+/-- `corpus/C16/unbind_reentrant_notified_twice.ops`: while a walker runs, a handler unbinds itself from inside
+    its own unbind notification: found (and notified) twice. -/
+theorem unbind_notify_counterexample : ¬ UnbindNotifyAtMostStmt Cfg.original := by
+  intro h
+  obtain ⟨st, hr, hlog⟩ := runs_of_isOk (cfg := Cfg.original) (own := Owner.pen) (beh := behSelfTwice) (fuel := 30)
+    (ops := [.bind 1 false wantsUnbind 0, .emit 1]) (by decide)
+  have := (h Owner.pen behSelfTwice noDestroy_behSelfTwice 30 _ st (by decide) hr 0).2.1
+  rw [hlog] at this
+  revert this; decide
+
+/-- `corpus/C16/unbind_reentrant_fires_unbound.ops`: the unbind notification emits the event; the binding being
+    unbound is delivered it. -/
+theorem no_fire_after_unbind_counterexample : ¬ NoFireAfterUnbindStmt Cfg.original := by
+  intro h
+  obtain ⟨st, hr, hlog⟩ := runs_of_isOk (cfg := Cfg.original) (own := Owner.pen) (beh := behReemit) (fuel := 30)
+    (ops := [.bind 1 false wantsUnbind 0, .unbind 0]) (by decide)
+  have := h Owner.pen behReemit noDestroy_behReemit 30 _ st (by decide) hr
+    [.leave 0, .actEnd, .occEnd 1, .leave 0, .enter 0 0 1 1 1, .fire 0 1, .occBegin 1 1 false, .actBegin 0, .enter 0 0 0 2 0]
+    [.bound 0 1 1 false wantsUnbind] 0 (by rw [hlog]; decide)
+  revert this; decide
+
+/-! ### the theorems are not vacuous: concrete histories of the repaired code that exercise them -/
+
+/-- The re-entrant history of `oneshot_counterexample` runs to completion on the repaired code, the one-shot
+    binding 1 is bound and delivered exactly once, although event 1 occurred twice. -/
+example : ∃ st, Runs Cfg.repaired Owner.pen behReemit 30 [.bind 1 false plain 0, .bind 1 false oneshot 1, .emit 1] st ∧
+    boundIn st.log 1 oneshot ∧ st.log.countP (isEnterFire 1) = 1 ∧ st.log.countP (isEnterFire 0) = 2 := by
+  obtain ⟨st, hr, hlog⟩ := runs_of_isOk (cfg := Cfg.repaired) (own := Owner.pen) (beh := behReemit) (fuel := 30)
+    (ops := [.bind 1 false plain 0, .bind 1 false oneshot 1, .emit 1]) (by decide)
+  refine ⟨st, hr, by rw [hlog]; exact ⟨2, 1, false, by decide⟩, by rw [hlog]; decide, by rw [hlog]; decide⟩
+
+/-- A one-shot key handler on a terminal: two key events, one delivery. -/
+example : ∃ st, Runs Cfg.repaired Owner.term behNone 30 [.bind 2 false oneshot 0, .emit 2, .emit 2] st ∧
+    st.log.countP (isEnterFire 0) = 1 := by
+  obtain ⟨st, hr, hlog⟩ := runs_of_isOk (cfg := Cfg.repaired) (own := Owner.term) (beh := behNone) (fuel := 30)
+    (ops := [.bind 2 false oneshot 0, .emit 2, .emit 2]) (by decide)
+  exact ⟨st, hr, by rw [hlog]; decide⟩
+
+/-- The self-unbinding notification of `no_ub_counterexample` / `unbind_notify_counterexample` on the repaired
+    code: no undefined behaviour, one request, one notification, both from the top level and under a walker. -/
+example : ∃ st, Runs Cfg.repaired Owner.pen behSelfTwice 30 [.bind 1 false wantsUnbind 0, .unbind 0] st ∧
+    st.log.countP (isReq 0) = 1 ∧ st.log.countP (isNotif 0) = 1 := by
+  obtain ⟨st, hr, hlog⟩ := runs_of_isOk (cfg := Cfg.repaired) (own := Owner.pen) (beh := behSelfTwice) (fuel := 30)
+    (ops := [.bind 1 false wantsUnbind 0, .unbind 0]) (by decide)
+  exact ⟨st, hr, by rw [hlog]; decide, by rw [hlog]; decide⟩
+
+example : ∃ st, Runs Cfg.repaired Owner.pen behSelfTwice 30 [.bind 1 false wantsUnbind 0, .emit 1] st ∧
+    st.log.countP (isReq 0) = 1 ∧ st.log.countP (isNotif 0) = 1 ∧ st.log.countP (isEnterFire 0) = 1 := by
+  obtain ⟨st, hr, hlog⟩ := runs_of_isOk (cfg := Cfg.repaired) (own := Owner.pen) (beh := behSelfTwice) (fuel := 30)
+    (ops := [.bind 1 false wantsUnbind 0, .emit 1]) (by decide)
+  exact ⟨st, hr, by rw [hlog]; decide, by rw [hlog]; decide, by rw [hlog]; decide⟩
+
+/-- The notification that re-emits (`no_fire_after_unbind_counterexample`) on the repaired code: an unbind
+    request followed by an occurrence of the event, and no delivery to the unbound binding. -/
+example : ∃ st, Runs Cfg.repaired Owner.pen behReemit 30 [.bind 1 false wantsUnbind 0, .unbind 0] st ∧
+    Ev.unbindReq 0 ∈ st.log ∧ Ev.occBegin 1 1 false ∈ st.log ∧ st.log.countP (isEnterFire 0) = 0 := by
+  obtain ⟨st, hr, hlog⟩ := runs_of_isOk (cfg := Cfg.repaired) (own := Owner.pen) (beh := behReemit) (fuel := 30)
+    (ops := [.bind 1 false wantsUnbind 0, .unbind 0]) (by decide)
+  exact ⟨st, hr, by rw [hlog]; decide, by rw [hlog]; decide, by rw [hlog]; decide⟩
+
+/-- Destruction with three askers of different kinds and one binding that did not ask: the history and the
+    destroy both complete, and the handlers are entered in reverse list order (the `FIRST`-bound one last). -/
+example :
+    (match execOps Cfg.repaired Owner.pen behNone 30
+        [.bind 0 false plain 0, .bind 1 false wantsUnbind 1, .bind 1 false plain 2, .bind 1 true ⟨false, true, false⟩ 3] St.init with
+     | .ok st => (match execOp Cfg.repaired Owner.pen behNone 30 .destroy st with
+        | .ok st' => some (keys st.list, enters (st'.log.take (st'.log.length - st.log.length)))
+        | _ => none)
+     | _ => none) = some ([3, 0, 1, 2], [(1, 6), (0, 6), (3, 6)]) := by decide
 
 end Tickit.Props.C16
